@@ -84,6 +84,7 @@ class Run:
                                      event_filter=event_filter, drop_noise=drop_noise)
         for pth, _ in self.init_fs:
             self._register(pth)
+        self.shadow = {tuple(os.path.relpath(os.fsdecode(pth), self.sc).split("/")): d for pth, d in self.init_fs}
         self.mirror = []         # (object, put clock units, delayed)
         self.log = []            # executed actions with observations: dicts
         self.skipped = 0
@@ -114,6 +115,23 @@ class Run:
                 for f in fs:
                     out.append((os.fsencode(os.path.join(r, f)), False))
         return out
+
+    def _shadow_apply(self, kind, p, q):
+        sh = self.shadow
+        if kind == "touch":
+            sh[p] = False
+        elif kind == "mkdir":
+            sh[p] = True
+        elif kind in ("unlink", "rmdir"):
+            sh.pop(p, None)
+        elif kind == "rename":
+            for k in [k for k in sh if k == q or k[:len(q)] == q]:
+                del sh[k]
+            moved = {k: v for k, v in sh.items() if k == p or k[:len(p)] == p}
+            for k in moved:
+                del sh[k]
+            for k, v in moved.items():
+                sh[q + k[len(p):]] = v
 
     def _next_order(self):
         self._order = getattr(self, "_order", 10 ** 6) + 1
@@ -155,14 +173,14 @@ class Run:
     def op(self, kind, path, path2=None):
         p = self.real(path)
         # what the operation is about, captured before it runs (used by the C03 oracle)
-        was_dir = os.path.isdir(p)
+        # (from the run's own shadow of the tree: scanning directories here would queue inotify noise)
+        pt = tuple(path)
+        was_dir = bool(self.shadow.get(pt, False))
         desc = []
         if kind == "rename" and was_dir:
-            for r, ds, fs in os.walk(p):
-                for d in ds:
-                    desc.append((os.fsencode(os.path.join(r, d)[len(p):]), True))
-                for f in fs:
-                    desc.append((os.fsencode(os.path.join(r, f)[len(p):]), False))
+            for k, isd in self.shadow.items():
+                if len(k) > len(pt) and k[:len(pt)] == pt:
+                    desc.append((os.fsencode("/" + "/".join(k[len(pt):])), isd))
         q_real = self.real(path2) if path2 else None
         replaced = bool(q_real and os.path.lexists(q_real))
         replaced_dir = bool(q_real and os.path.isdir(q_real))
@@ -205,6 +223,8 @@ class Run:
         except OSError:
             ok = False
             self.skipped += 1
+        if ok:
+            self._shadow_apply(kind, pt, tuple(path2) if path2 else None)
         ent = {"a": "op", "kind": kind, "path": path, "path2": path2, "ok": ok,
                "p": os.fsencode(p), "q": os.fsencode(q_real) if q_real else None, "was_dir": was_dir,
                "descendants": desc, "replaced": replaced and ok, "replaced_dir": replaced_dir}
